@@ -1,6 +1,8 @@
 """Kernel K108a (property C08): the per-key emission of the generated to_dict body --
-CodeBuilder._pack_method_set_value (the omit_default guard) and CodeBuilder.__pack_method_set_value
-(the key: field name / alias / run-time `by_alias` branch), mashumaro/core/meta/code/builder.py.
+CodeBuilder._pack_method_set_value (the omit_default guard), CodeBuilder.__pack_method_set_value
+(the key: field name / alias / run-time `by_alias` branch) and the per-field body of the `kwargs = {}` loop of
+CodeBuilder._add_pack_method_lines (the `if value is not None:` / `else:` / `if not omit_none:` shapes of a nullable
+field), mashumaro/core/meta/code/builder.py.
 
 Both functions only EMIT text (self.add_line / with self.indent(...)).  They are translated on every run
 into Gallina functions that RETURN the emitted lines as a value (list kv):
@@ -75,6 +77,18 @@ class EmitTranslator(FnTranslator):
         src = ast.unparse(s)
         if isinstance(s, ast.Expr) and isinstance(s.value, ast.Constant):
             return self.emit(rest, inner_name)
+        if isinstance(s, ast.Continue):          # end of this field's statements
+            return "Ok []"
+        if isinstance(s, ast.Expr) and isinstance(s.value, ast.Call) and ast.unparse(s.value.func) == "self._pack_method_set_value" \
+                and inner_name == "set_value" and not s.value.args and sorted(k.arg for k in s.value.keywords) == sorted(OUTER_PARAMS):
+            kw = {k.arg: k.value for k in s.value.keywords}
+            pre, args = [], []
+            for pn in OUTER_PARAMS:
+                pp, a = self.expr(kw[pn])
+                pre += pp
+                args.append(a)
+            call = "(set_value a_default a_default_literal a_default_is_nan a_serialize_by_alias " + " ".join(args) + ")"
+            return self.wrap(pre, f"(a <- {call} ;; r <- {self.emit(rest, inner_name)} ;; Ok (a ++ r)%list)")
         if isinstance(s, ast.Expr) and isinstance(s.value, ast.Call) and not s.value.keywords:
             f = ast.unparse(s.value.func)
             if f == "self.ensure_object_imported":
@@ -123,7 +137,7 @@ class EmitTranslator(FnTranslator):
         if not stmts:
             return False
         last = stmts[-1]
-        if isinstance(last, ast.Return):
+        if isinstance(last, (ast.Return, ast.Continue)):
             return True
         if isinstance(last, ast.If):
             return bool(last.orelse) and self.always_exits(last.body) and self.always_exits(last.orelse)
@@ -152,4 +166,37 @@ def gen() -> str:
     text += one(module, "CodeBuilder.__pack_method_set_value", "set_value_key", INNER_PARAMS, ["a_serialize_by_alias"], None)
     text += one(module, "CodeBuilder._pack_method_set_value", "set_value", OUTER_PARAMS,
                 ["a_default", "a_default_literal", "a_default_is_nan", "a_serialize_by_alias"], "set_value_key")
+    text += field_loop(module)
     return text
+
+
+LOOP_ABSTR = {
+    "aliases.get(fname)": "a_alias",                 # aliases[fname] = alias iff alias is not None (kernel K18)
+    "fname in nullable_fields": "a_nullable",        # could_be_none = is_field_nullable (kernels K18, K17)
+    "packer == 'value'": "a_trivial",
+}
+LOOP_PARAMS = ["force_value", "omit_default", "omit_none", "omit_none_feature", "by_alias_feature", "fname", "packer"]
+
+
+def field_loop(module) -> str:
+    """the body of `for fname, packer in packers.items():` under `kwargs = {}` in _add_pack_method_lines: the statements
+    emitted for ONE field (continue = nothing more for this field)"""
+    fn = find_function(module, "CodeBuilder._add_pack_method_lines")
+    loops = [n for n in ast.walk(fn) if isinstance(n, ast.For) and ast.unparse(n.target) == "(fname, packer)"
+             and ast.unparse(n.iter) == "packers.items()"
+             and any(isinstance(x, ast.Call) and ast.unparse(x.func) == "self._pack_method_set_value" for x in ast.walk(n))]
+    if len(loops) != 1 or loops[0].orelse:
+        raise Unsupported(f"per-field emission loop: {len(loops)} candidates")
+    # the loop must directly follow `kwargs = 'kwargs'; self.add_line('kwargs = {}')`
+    parent = [n for n in ast.walk(fn) if isinstance(n, ast.If) and loops[0] in n.body]
+    if len(parent) != 1 or [ast.unparse(x) for x in parent[0].body[:2]] != ["kwargs = 'kwargs'", "self.add_line('kwargs = {}')"] \
+            or parent[0].body[2] is not loops[0] or len(parent[0].body) != 3:
+        raise Unsupported("per-field emission loop: unexpected surroundings")
+    k = Kernel(func="pack_field_lines", coq_name="pack_field_lines",
+               params=["a_default", "a_default_literal", "a_default_is_nan", "a_serialize_by_alias", "a_alias", "a_nullable", "a_trivial"]
+                      + [f"v_{p}" for p in LOOP_PARAMS], abstr=dict(ABSTR, **LOOP_ABSTR))
+    tr = EmitTranslator(k, module)
+    tr.locals.update(LOOP_PARAMS)
+    body = tr.emit(list(loops[0].body), "set_value")
+    ps = " ".join(f"({p}: kv)" for p in k.params)
+    return f"Definition pack_field_lines {ps} : res (list kv) :=\n  {body}.\n\n"
